@@ -98,7 +98,7 @@ def handle : List String → String
     match parseDir d, segs.mapM parseSegCol with
     | some d, some cs =>
       let sorted := sortReaders d (cs.zipIdx.map fun (c, i) => (c.stats, (c, i)))
-      showBool (stackDecision d (sorted.map (·.2.1))) ++ "/" ++ showNatList (sorted.map (·.2.2)) ++ "/" ++
+      (match stackDecisionG d (sorted.map (·.2.1)) with | some b => showBool b | none => "?") ++ "/" ++ showNatList (sorted.map (·.2.2)) ++ "/" ++
         showBool ((sorted.map (·.2.1)).any fun c => hasLiveNulls c.card c.keys c.alive)
     | _, _ => "bad-op"
   | _ => "bad-op"
